@@ -128,7 +128,17 @@ func execute(c Case) *pt.Failure {
 	for _, e := range env.Srv.Journal() {
 		if (e.Kind == "E" || e.Kind == "PE") && !strings.Contains(strings.ToLower(e.Query), "undo_log") {
 			for _, w := range e.Writes {
-				rows = append(rows, &rowState{key: w.Key, before: w.Before, after: w.After})
+				// keyed by the key columns in column order (the engine's own key text follows the order of
+				// the PRIMARY KEY clause, which may differ)
+				img := w.After
+				if img == nil {
+					img = w.Before
+				}
+				var ks []string
+				for _, p := range c.Tables[c.Stmt.Table].PK {
+					ks = append(ks, memsql.RenderValue(lowerIfString(img[p])))
+				}
+				rows = append(rows, &rowState{key: strings.Join(ks, "|"), before: w.Before, after: w.After})
 			}
 		}
 	}
